@@ -20,6 +20,7 @@ import (
 var probes = map[string]func() (string, *failure){
 	"flood-after-disconnect": probeFloodAfterDisconnect,
 	"stop-during-connect":    probeStopDuringConnect,
+	"stop-vs-late-connect":   probeStopVsLateConnect,
 	"once-deadlock":          probeOnceDeadlock,
 	"same-id-storm":          probeSameIDStorm,
 	"slow-subscriber":        probeSlowSubscriber,
@@ -135,6 +136,64 @@ func probeStopDuringConnect() (string, *failure) {
 		}
 		return "", failf("leak", "Stop returned nil after %s but a connection that had not yet sent CONNECT is still open (closed by broker: %v) with %d broker goroutine(s) alive%s%s",
 			el.Round(time.Millisecond), closedByBroker, len(gs), first, extra)
+	}
+	return fmt.Sprintf("stop_ms=%.1f", float64(el)/1e6), nil
+}
+
+// lateListener: Close() first lets one more client complete CONNECT / CONNACK, then closes.
+type lateListener struct {
+	net.Listener
+	once sync.Once
+	hook func()
+}
+
+func (l *lateListener) Close() error {
+	l.once.Do(l.hook)
+	return l.Listener.Close()
+}
+
+// Gen/StopOrder.v, theorem C15_stop_order: the listeners are closed BEFORE Stop lists srv.clients.
+// A client that completes CONNECT while the listener is being closed must be closed (and waited
+// for) by Stop like every other registered client.  If the snapshot came first, this client would
+// be online after Stop has returned.
+func probeStopVsLateConnect() (string, *failure) {
+	bound := *flagWatchdog
+	var late *mclient
+	var lateErr error
+	var addr string
+	b, f := startBrokerWith(nil, func(inner net.Listener) net.Listener {
+		addr = inner.Addr().String()
+		return &lateListener{Listener: inner, hook: func() {
+			late, lateErr = dialClient(addr, "late", false, true, 0, bound)
+		}}
+	})
+	if f != nil {
+		return "", f
+	}
+	early, err := dialClient(b.addr, "early", false, true, 0, bound)
+	if err != nil {
+		return "", failf("watchdog", "CONNECT early: %v", err)
+	}
+	el, f := b.stopBroker(1, bound)
+	if f != nil {
+		return "", f
+	}
+	if lateErr != nil || late == nil {
+		return "", failf("panic", "the late client could not connect while the listener was being closed: %v (harness problem: the accept loop was already gone?)", lateErr)
+	}
+	if !early.waitDead(1 * time.Second) {
+		return "", failf("stop", "a client registered before Stop is still connected 1s after Stop returned nil")
+	}
+	if !late.waitDead(1 * time.Second) {
+		answers := ""
+		if _, err := late.request(pingreqPacket(), tPINGRESP, 0, 1*time.Second); err == nil {
+			answers = " and still answers PINGREQ"
+		}
+		return "", failf("leak", "Stop returned nil after %s but a client that completed CONNECT/CONNACK while the listener was being closed is still connected%s: srv.clients was listed before the listeners were closed; broker goroutines: %s",
+			el.Round(time.Millisecond), answers, goroutineHistogram())
+	}
+	if f := leakCheck(2 * time.Second); f != nil {
+		return "", f
 	}
 	return fmt.Sprintf("stop_ms=%.1f", float64(el)/1e6), nil
 }
